@@ -2,7 +2,7 @@
 import core
 import gen
 from core import Some
-from props.common import default_encode, default_decode, split_range
+from props.common import thorough_aux, default_encode, default_decode, split_range
 
 PROP = 'C06'
 BIN = 'c06'
@@ -166,3 +166,6 @@ REQUIRED = ['all-zero pattern', 'all-one pattern', 'next_power_of_two does not f
 
 def floors(st, tier):
     return ['class %r never observed' % c for c in REQUIRED if st['classes'].get(c, 0) == 0]
+
+
+extra_passes = thorough_aux('props.c06', (), exh=True)
